@@ -4,16 +4,16 @@
        n        number of process ordinals 0..n-1
        dead     comma separated ordinals that are dead from the start, or "-"
        lockinit absent | blank | pid<q>      (blank = empty or unparsable content)
-       tokens   comma separated events: c<p> TryCreate, w<p> WritePid, r<p> Read, p<p> Probe,
+       tokens   comma separated events: c<p> TryCreate, r<p> Read, p<p> Probe,
                 x<p> Remove, k<p> Wake, u<p> Unlock, !<p> Crash, a<p> Cancel (the waiter's context
                 is cancelled: enabled at W only), s<p> = whichever non-crash event process p can
                 take by itself now
      -> one line: "run" TAB obs;obs;...   (first obs = initial state, then one per token)
         obs = <event>/<enabled 0|1>/<lock>/<pc,pc,...>/<holders>/<guard>
         lock    absent | blank:<inode> | pid<q>:<inode>
-        pc      I | C<i> | R | P<i>.<q> | X<i> | X- | W | G(gave up) | H<i> | D | Z(dead)
+        pc      I | R | P<i>.<q> | X<i> | X- | W | G(gave up) | H<i> | D | Z(dead)
         holders ordinals joined by "+", or "-"
-        guard   b = read_before_write fired on this step, u = remove_of_unexamined_inode, - = none
+        guard   u = remove_of_unexamined_inode fired on this step, - = not
        a token that is not enabled leaves the state unchanged (enabled = 0)
 
    explore <n> <dead> <lockinit> <depth> <maxcrash> [<maxcancel>]
@@ -21,7 +21,7 @@
      events and at most maxcancel (default 0) Cancel events; states are identified up to renaming of inodes.  Prints one line per schedule worth
      replaying: every transition (state, event) of the explored graph is the last step of at
      least one printed schedule or an inner step of one.
-     -> "sched" TAB tokens TAB <mutex violated 0|1> TAB <rbw fired 0|1> TAB <rui fired 0|1> TAB <leaf|edge>
+     -> "sched" TAB tokens TAB <mutex violated 0|1> TAB <rui fired 0|1> TAB <leaf|edge>
         ... "end" TAB <schedules> TAB <states> TAB <transitions> *)
 open Model
 open Wire
@@ -31,7 +31,6 @@ let nn = nat_of_int
 
 let show_pc = function
   | Idle -> "I"
-  | Created i -> "C" ^ string_of_int (ni i)
   | WantRead -> "R"
   | WantProbe (i, q) -> Printf.sprintf "P%d.%d" (ni i) (ni q)
   | WantRemove None -> "X-"
@@ -60,7 +59,6 @@ let show_state n s =
 
 let show_event = function
   | TryCreate p -> "c" ^ string_of_int (ni p)
-  | WritePid p -> "w" ^ string_of_int (ni p)
   | Read p -> "r" ^ string_of_int (ni p)
   | Probe p -> "p" ^ string_of_int (ni p)
   | Remove p -> "x" ^ string_of_int (ni p)
@@ -73,7 +71,7 @@ let show_event = function
 let parse_token s tok =
   let p = nn (int_of_string (String.sub tok 1 (String.length tok - 1))) in
   match tok.[0] with
-  | 'c' -> Some (TryCreate p) | 'w' -> Some (WritePid p) | 'r' -> Some (Read p)
+  | 'c' -> Some (TryCreate p) | 'r' -> Some (Read p)
   | 'p' -> Some (Probe p) | 'x' -> Some (Remove p) | 'k' -> Some (Wake p)
   | 'u' -> Some (Unlock p) | '!' -> Some (Crash p) | 'a' -> Some (Cancel p)
   | 's' -> next_event s p
@@ -88,8 +86,7 @@ let parse_lockinit l =
     Some (Some (nn (int_of_string (String.sub l 3 (String.length l - 3)))))
   else failwith ("bad lockinit " ^ l)
 
-let guard_flag s e =
-  if read_before_write s e then "b" else if remove_of_unexamined_inode s e then "u" else "-"
+let guard_flag s e = if remove_of_unexamined_inode s e then "u" else "-"
 
 let do_run = function
   | [n; dead; lk; toks] ->
@@ -134,7 +131,6 @@ let canon n s =
       Buffer.add_char b '|';
       Buffer.add_string b (match s.pcs (nn p) with
           | Idle -> "I" | WantRead -> "R" | Waiting -> "W" | GaveUp -> "G" | Done -> "D" | Dead -> "Z"
-          | Created i -> "C" ^ ino i
           | Held i -> "H" ^ ino i
           | WantProbe (i, q) -> Printf.sprintf "P%s.%d" (ino i) (ni q)
           | WantRemove None -> "X-"
@@ -150,18 +146,18 @@ let rec do_explore = function
     let s0 = mk_init (parse_dead dead) (parse_lockinit lk) in
     let seen = Hashtbl.create 4096 in
     Hashtbl.add seen (canon n s0) ();
-    (* frontier entries: state, reversed path, (crashes used, cancels used), viol, rbw, rui *)
-    let frontier = ref [(s0, [], (0, 0), false, false, false)] in
+    (* frontier entries: state, reversed path, (crashes used, cancels used), viol, rui *)
+    let frontier = ref [(s0, [], (0, 0), false, false)] in
     let nsched = ref 0 and ntrans = ref 0 in
     let out = Buffer.create 65536 in
-    let emit path v b u kind =
+    let emit path v u kind =
       incr nsched;
-      Buffer.add_string out (Printf.sprintf "sched\t%s\t%d\t%d\t%d\t%s\n"
+      Buffer.add_string out (Printf.sprintf "sched\t%s\t%d\t%d\t%s\n"
         (String.concat "," (List.rev_map show_event path))
-        (if v then 1 else 0) (if b then 1 else 0) (if u then 1 else 0) kind) in
+        (if v then 1 else 0) (if u then 1 else 0) kind) in
     for d = 1 to depth do
       let nxt = ref [] in
-      List.iter (fun (s, path, (cr, cn), v, b, u) ->
+      List.iter (fun (s, path, (cr, cn), v, u) ->
           let any = ref false in
           List.iter (fun p ->
               let evs =
@@ -174,22 +170,21 @@ let rec do_explore = function
                   | Some s' ->
                     incr ntrans;
                     any := true;
-                    let b' = b || read_before_write s e
-                    and u' = u || remove_of_unexamined_inode s e
+                    let u' = u || remove_of_unexamined_inode s e
                     and v' = v || List.length (holders n s') > 1
                     and cr' = (match e with Crash _ -> (cr + 1, cn) | Cancel _ -> (cr, cn + 1) | _ -> (cr, cn)) in
                     let key = canon n s' in
-                    if Hashtbl.mem seen key then emit (e :: path) v' b' u' "edge"
+                    if Hashtbl.mem seen key then emit (e :: path) v' u' "edge"
                     else begin
                       Hashtbl.add seen key ();
-                      nxt := (s', e :: path, cr', v', b', u') :: !nxt
+                      nxt := (s', e :: path, cr', v', u') :: !nxt
                     end) evs)
             (range n);
           (* a terminal state: its path is not a prefix of any other printed schedule *)
-          if not !any && path <> [] then emit path v b u "leaf")
+          if not !any && path <> [] then emit path v u "leaf")
         !frontier;
       frontier := List.rev !nxt;
-      if d = depth then List.iter (fun (_, path, _, v, b, u) -> emit path v b u "leaf") !frontier
+      if d = depth then List.iter (fun (_, path, _, v, u) -> emit path v u "leaf") !frontier
     done;
     Buffer.add_string out (Printf.sprintf "end\t%d\t%d\t%d" !nsched (Hashtbl.length seen) !ntrans);
     Buffer.contents out
